@@ -119,7 +119,8 @@ theorem access_miss (f u : Nat) (s : St B V) (h : s.parsed u = none) :
           else (readDeps T C f u s).parsed w
         pending := (readDeps T C f u s).pending ++ (T.view u).borrows.map fun e => (u, e)
         lost := (readDeps T C f u s).lost
-        stuck := (readDeps T C f u s).stuck } := by
+        stuck := (readDeps T C f u s).stuck
+        touched := fun w => if w = u then true else (readDeps T C f u s).touched w } := by
   simp [access, h, readDeps]
 
 /-- A: cached values are never dropped or changed by reading a view. -/
@@ -727,5 +728,267 @@ theorem content_all (hwf : WF T = true) (ht : Topo T = true) (hfr : Frame T = tr
   unfold save
   exact foldl_inv (InvE T C raw₀ E T.n) _ T.order _ h1
     (fun a l _ ha => saveStep_invE T C hwf ht hfr hra L raw₀ E hE l a ha)
+
+/-! ## 5. a second save is byte-identical -/
+
+/-- a writer builds its own lumps from scratch: what it stores there does not depend on the old bytes. -/
+def Canon (T : Tables) (C : Codec B V) : Prop :=
+  ∀ v, v < T.n → ∀ x env raw raw' l, l ∈ (T.view v).clears → C.wr v x env raw l = C.wr v x env raw' l
+
+theorem foldl_rel {α β γ : Type} (R : α → γ → Prop) (f : α → β → α) (g : γ → β → γ) (l : List β) (a : α) (c : γ)
+    (h0 : R a c) (hs : ∀ a c b, b ∈ l → R a c → R (f a b) (g c b)) : R (l.foldl f a) (l.foldl g c) := by
+  induction l generalizing a c with
+  | nil => simpa
+  | cons x xs ih =>
+    simp only [List.foldl_cons]
+    exact ih _ _ (hs a c x (by simp) h0) (fun a c b hb => hs a c b (by simp [hb]))
+
+/-- two states have the same shape: the same views cached, the same views ever parsed. -/
+def Sh (s s' : St B V) : Prop :=
+  (∀ v, (s.parsed v).isSome = (s'.parsed v).isSome) ∧ (∀ v, s.touched v = s'.touched v)
+
+theorem access_sh (f u : Nat) (s s' : St B V) (h : Sh s s') : Sh (access T C f u s) (access T C f u s') := by
+  induction f generalizing u s s' with
+  | zero => simpa [access_zero, Sh] using h
+  | succ f ih =>
+    have hu := h.1 u
+    cases hp : s.parsed u with
+    | some z =>
+      cases hp' : s'.parsed u with
+      | none => rw [hp, hp'] at hu; simp at hu
+      | some z' => rw [access_hit T C f u s z hp, access_hit T C f u s' z' hp']; exact h
+    | none =>
+      cases hp' : s'.parsed u with
+      | some z' => rw [hp, hp'] at hu; simp at hu
+      | none =>
+        rw [access_miss T C f u s hp, access_miss T C f u s' hp']
+        have h1 : Sh (readDeps T C f u s) (readDeps T C f u s') :=
+          foldl_rel Sh _ _ _ _ _ h (fun a c b _ hac => ih b a c hac)
+        refine ⟨fun v => ?_, fun v => ?_⟩
+        · simp only
+          by_cases hv : v = u
+          · simp [hv]
+          · simp only [hv, if_false]; exact h1.1 v
+        · simp only
+          by_cases hv : v = u
+          · simp [hv]
+          · simp only [hv, if_false]; exact h1.2 v
+
+theorem saveStep_sh (s s' : St B V) (l : Nat) (h : Sh s s') : Sh (saveStep T C s l) (saveStep T C s' l) := by
+  cases hv : T.viewOfMain l with
+  | none => rw [saveStep_none T C s l hv, saveStep_none T C s' l hv]; exact h
+  | some v =>
+    have hu := h.1 v
+    cases hp : s.parsed v with
+    | none =>
+      cases hp' : s'.parsed v with
+      | some z' => rw [hp, hp'] at hu; simp at hu
+      | none => rw [saveStep_skip T C s l v hv hp, saveStep_skip T C s' l v hv hp']; exact h
+    | some z =>
+      cases hp' : s'.parsed v with
+      | none => rw [hp, hp'] at hu; simp at hu
+      | some z' =>
+        rw [saveStep_hit T C s l v z hv hp, saveStep_hit T C s' l v z' hv hp']
+        have h0 : Sh (popSt s v) (popSt s' v) := by
+          refine ⟨fun w => ?_, fun w => h.2 w⟩
+          by_cases hw : w = v
+          · simp [popSt, hw]
+          · simp only [popSt, hw, if_false]; exact h.1 w
+        have h1 : Sh (writeDeps T C v (popSt s v)) (writeDeps T C v (popSt s' v)) :=
+          foldl_rel Sh _ _ _ _ _ h0 (fun a c b _ hac => access_sh T C T.fuel b a c hac)
+        exact ⟨fun w => h1.1 w, fun w => h1.2 w⟩
+
+theorem run_sh (xs : List Nat) (r r' : Nat → B) :
+    Sh (save T C (accesses T C xs (init r))) (save T C (accesses T C xs (init (V := V) r'))) := by
+  unfold save accesses
+  apply foldl_rel Sh _ _ _ _ _ _ (fun a c l _ hac => saveStep_sh T C a c l hac)
+  apply foldl_rel Sh _ _ _ _ _ _ (fun a c u _ hac => access_sh T C T.fuel u a c hac)
+  exact ⟨fun _ => rfl, fun _ => rfl⟩
+
+/-- canonical-bytes invariant: a cached view has been parsed; the lumps of a view never parsed are the
+original bytes; the lumps of a view parsed at some time are emptied or hold what its writer produces
+from the true value. -/
+def InvK (raw₀ : Nat → B) (E : Nat → V) (s : St B V) : Prop :=
+  (∀ v, s.parsed v ≠ none → s.touched v = true) ∧
+  ∀ v, v < T.n → ∀ l, l ∈ (T.view v).clears →
+    (s.touched v = false → s.raw l = raw₀ l ∧ s.clr l = false) ∧
+    (s.touched v = true → s.clr l = true ∨ s.raw l = C.wr v (E v) E raw₀ l)
+
+theorem access_touched (f u : Nat) (s : St B V) (v : Nat) (h : s.touched v = true) :
+    (access T C f u s).touched v = true := by
+  induction f generalizing u s with
+  | zero => simpa [access_zero] using h
+  | succ f ih =>
+    cases hp : s.parsed u with
+    | some z => rw [access_hit T C f u s z hp]; exact h
+    | none =>
+      rw [access_miss T C f u s hp]
+      simp only
+      by_cases hv : v = u
+      · simp [hv]
+      · simp only [hv, if_false]
+        exact foldl_inv (fun s' => s'.touched v = true) _ _ _ h (fun a b _ ha => ih b a ha)
+
+theorem access_invK (hfr : Frame T = true) (raw₀ : Nat → B) (E : Nat → V)
+    (S : Nat → Prop) (hS : ∀ a, S a → ∀ w ∈ (T.view a).rdeps, S w) (hSn : ∀ a, S a → a < T.n)
+    (f u : Nat) (s : St B V) (hu : S u) (h : InvK T C raw₀ E s) : InvK T C raw₀ E (access T C f u s) := by
+  induction f generalizing u s with
+  | zero => simpa [access_zero, InvK] using h
+  | succ f ih =>
+    cases hp : s.parsed u with
+    | some z => rw [access_hit T C f u s z hp]; exact h
+    | none =>
+      rw [access_miss T C f u s hp]
+      have hun := hSn u hu
+      have h1 : InvK T C raw₀ E (readDeps T C f u s) :=
+        foldl_inv (InvK T C raw₀ E) _ _ _ h (fun a b hb ha => ih b a (hS u hu b hb) ha)
+      obtain ⟨hown, _⟩ := frame_spec T hfr u hun
+      refine ⟨fun v hv => ?_, fun v hvn l hl => ?_⟩
+      · simp only at hv ⊢
+        by_cases hvu : v = u
+        · simp [hvu]
+        · simp only [hvu, if_false] at hv ⊢; exact h1.1 v hv
+      · simp only
+        by_cases hvu : v = u
+        · subst hvu
+          simp [hl]
+        · have hlu : l ∉ (T.view u).clears := fun hlu => hown v hvn hvu l hlu hl
+          simp only [hvu, hlu, if_false]
+          exact h1.2 v hvn l hl
+
+theorem saveStep_facts (ht : Topo T = true) (hfr : Frame T = true) (hra : RAcyclic T = true)
+    (L : Laws T C) (raw₀ : Nat → B) (E : Nat → V) (l v : Nat) (x0 : V) (s : St B V)
+    (h : InvE T C raw₀ E T.n s) (hv : T.viewOfMain l = some v) (hp : s.parsed v = some x0) :
+    x0 = E v ∧ InvE T C raw₀ E v (writeDeps T C v (popSt s v)) ∧
+    (∀ w, w ∈ (T.view v).wdeps → (writeDeps T C v (popSt s v)).env C w = E w) ∧
+    ∃ S : List Nat, (∀ w ∈ (T.view v).wdeps, w ∈ S) ∧ (∀ a ∈ S, ∀ w ∈ (T.view a).rdeps, w ∈ S) ∧
+      (∀ u ∈ S, u < T.n ∧ T.pos v < T.pos u) := by
+  obtain ⟨hvn, hvm⟩ := viewOfMain_some T l v hv
+  obtain ⟨S, hS1, hS2, hS3⟩ := topo_spec T ht v hvn
+  have hx0 : x0 = E v := h.1 v x0 hp
+  have hvS : v ∉ S := fun hm => by have := (hS3 v hm).2; omega
+  have h0 : InvE T C raw₀ E v (popSt s v) := by
+    refine ⟨fun w x hw => ?_, fun w hwn hwv hw => ?_, h.2.2⟩
+    · by_cases hwv : w = v
+      · simp [popSt, hwv] at hw
+      · exact h.1 w x (by simpa [popSt, hwv] using hw)
+    · exact h.2.1 w hwn (by omega) (by simpa [popSt, hwv] using hw)
+  have h1 : InvE T C raw₀ E v (writeDeps T C v (popSt s v)) :=
+    foldl_inv (InvE T C raw₀ E v) _ _ _ h0 (fun a b hb ha =>
+      access_invE T C hfr hra L raw₀ E v (· ∈ S) hS2 (fun a ha => (hS3 a ha).1) hvS T.fuel b a (hS1 b hb)
+        (by have := (racyclic_spec T hra b (hS3 b (hS1 b hb)).1).1; unfold Tables.fuel; omega) ha)
+  have henv : ∀ w, w ∈ (T.view v).wdeps → (writeDeps T C v (popSt s v)).env C w = E w := by
+    intro w hw
+    have hne : (writeDeps T C v (popSt s v)).parsed w ≠ none := by
+      unfold writeDeps Tables.fuel; exact foldAccess_parsed T C _ _ _ w hw
+    cases hpw : (writeDeps T C v (popSt s v)).parsed w with
+    | none => exact absurd hpw hne
+    | some y => simp [St.env, hpw, h1.1 w y hpw]
+  exact ⟨hx0, h1, henv, S, hS1, hS2, hS3⟩
+
+theorem saveStep_invK (hwf : WF T = true) (hw : WritesAll T = true) (ht : Topo T = true) (hfr : Frame T = true)
+    (hra : RAcyclic T = true) (L : Laws T C) (hcan : Canon T C) (raw₀ : Nat → B) (E : Nat → V) (l : Nat) (s : St B V)
+    (hE : InvE T C raw₀ E T.n s) (h : InvK T C raw₀ E s) : InvK T C raw₀ E (saveStep T C s l) := by
+  cases hv : T.viewOfMain l with
+  | none => rw [saveStep_none T C s l hv]; exact h
+  | some v =>
+    obtain ⟨hvn, hvm⟩ := viewOfMain_some T l v hv
+    cases hp : s.parsed v with
+    | none => rw [saveStep_skip T C s l v hv hp]; exact h
+    | some x0 =>
+      obtain ⟨hx0, _, henv, S, hS1, hS2, hS3⟩ := saveStep_facts T C ht hfr hra L raw₀ E l v x0 s hE hv hp
+      rw [saveStep_hit T C s l v x0 hv hp]
+      have h0 : InvK T C raw₀ E (popSt s v) := by
+        refine ⟨fun w hw => ?_, fun w hwn l' hl' => h.2 w hwn l' hl'⟩
+        by_cases hwv : w = v
+        · simp [popSt, hwv] at hw
+        · exact h.1 w (by simpa [popSt, hwv] using hw)
+      have h1 : InvK T C raw₀ E (writeDeps T C v (popSt s v)) :=
+        foldl_inv (InvK T C raw₀ E) _ _ _ h0 (fun a b hb ha =>
+          access_invK T C hfr raw₀ E (· ∈ S) hS2 (fun a ha => (hS3 a ha).1) T.fuel b a (hS1 b hb) ha)
+      have htv : (writeDeps T C v (popSt s v)).touched v = true :=
+        foldl_inv (fun s' => s'.touched v = true) _ _ _ (by simpa [popSt] using h.1 v (by rw [hp]; simp))
+          (fun a b _ ha => access_touched T C T.fuel b a v ha)
+      obtain ⟨hown, hraw⟩ := frame_spec T hfr v hvn
+      refine ⟨h1.1, fun w hwn l' hl' => ?_⟩
+      simp only
+      by_cases hwv : w = v
+      · subst hwv
+        have hws : l' ∈ (T.view w).main :: (T.view w).wraw := writesAll_spec T hw w hwn l' hl'
+        refine ⟨fun hf => (by rw [htv] at hf; cases hf), fun _ => Or.inr ?_⟩
+        simp only [applyWr, hws, if_true]
+        rw [L.wr_frame w hwn x0 _ E _ henv, hx0]
+        exact hcan w hwn _ _ _ _ l' hl'
+      · have hnws : l' ∉ (T.view v).main :: (T.view v).wraw := by
+          intro hm
+          rcases List.mem_cons.mp hm with e | e
+          · exact hown w hwn hwv l' (e ▸ main_mem_clears T hwf v hvn) hl'
+          · rcases hraw l' (by simp [e]) with h' | h'
+            · exact hown w hwn hwv l' h' hl'
+            · rw [owned_of_mem T w hwn l' hl'] at h'; cases h'
+        simp only [applyWr, hnws, if_false]
+        exact h1.2 w hwn l' hl'
+
+/-- both invariants after a whole run. -/
+theorem run_invK (hwf : WF T = true) (hw : WritesAll T = true) (ht : Topo T = true) (hfr : Frame T = true)
+    (hra : RAcyclic T = true) (L : Laws T C) (hcan : Canon T C) (raw₀ : Nat → B) (E : Nat → V)
+    (hE : IsEnv T C raw₀ E) (xs : List Nat) (hxs : ∀ u ∈ xs, u < T.n) :
+    InvK T C raw₀ E (save T C (accesses T C xs (init raw₀))) := by
+  have e0 : InvE T C raw₀ E T.n (init raw₀ : St B V) :=
+    ⟨fun v x hv => by simp [init] at hv, fun v hvn _ _ => hE v hvn, fun _ _ => rfl⟩
+  have k0 : InvK T C raw₀ E (init raw₀ : St B V) :=
+    ⟨fun v hv => by simp [init] at hv, fun v _ l _ => ⟨fun _ => ⟨rfl, rfl⟩, fun ht => by simp [init] at ht⟩⟩
+  have closed : ∀ a, a < T.n → ∀ w ∈ (T.view a).rdeps, w < T.n := by
+    intro a ha w hw'
+    exact (wf_spec T hwf).2 a ha |>.2.1 w (by simp [hw'])
+  have h1 : InvE T C raw₀ E T.n (accesses T C xs (init raw₀)) ∧ InvK T C raw₀ E (accesses T C xs (init raw₀)) := by
+    unfold accesses
+    refine foldl_inv (fun s' => InvE T C raw₀ E T.n s' ∧ InvK T C raw₀ E s') _ xs _ ⟨e0, k0⟩ (fun a u hu ha => ?_)
+    exact ⟨access_invE T C hfr hra L raw₀ E T.n (· < T.n) closed (fun _ h => h) (by omega) T.fuel u a (hxs u hu)
+        (by have := (racyclic_spec T hra u (hxs u hu)).1; unfold Tables.fuel; omega) ha.1,
+      access_invK T C hfr raw₀ E (· < T.n) closed (fun _ h => h) T.fuel u a (hxs u hu) ha.2⟩
+  unfold save
+  exact (foldl_inv (fun s' => InvE T C raw₀ E T.n s' ∧ InvK T C raw₀ E s') _ T.order _ h1
+    (fun a l _ ha => ⟨saveStep_invE T C hwf ht hfr hra L raw₀ E hE l a ha.1,
+      saveStep_invK T C hwf hw ht hfr hra L hcan raw₀ E l a ha.1 ha.2⟩)).2
+
+theorem owned_spec (l : Nat) (h : T.owned l = true) : ∃ v, v < T.n ∧ l ∈ (T.view v).clears := by
+  unfold Tables.owned at h
+  simp only [List.any_eq_true, List.mem_range, List.contains_iff_mem] at h
+  exact h
+
+/-- **a second save is byte-identical**: re-open the saved lumps, read the same views, save again. -/
+theorem idem_bytes (hwf : WF T = true) (hw : WritesAll T = true) (ht : Topo T = true) (hfr : Frame T = true)
+    (hra : RAcyclic T = true) (hb : BorrowOK T = true) (L : Laws T C) (hcan : Canon T C)
+    (raw₀ : Nat → B) (E : Nat → V) (hE : IsEnv T C raw₀ E) (xs : List Nat) (hxs : ∀ u ∈ xs, u < T.n) (l : Nat) :
+    (save T C (accesses T C xs (init (V := V) (save T C (accesses T C xs (init raw₀))).raw))).raw l
+      = (save T C (accesses T C xs (init raw₀))).raw l := by
+  -- first run
+  obtain ⟨_, e1b, e1c⟩ := content_all T C hwf ht hfr hra L raw₀ E hE xs hxs
+  obtain ⟨n1, c1, _, _⟩ := flush_all T C hwf hw ht hb raw₀ xs hxs
+  have hE1 : IsEnv T C (save T C (accesses T C xs (init raw₀))).raw E :=
+    fun v hv => e1b v hv (by omega) (n1 v)
+  have k1 := run_invK T C hwf hw ht hfr hra L hcan raw₀ E hE xs hxs
+  -- second run
+  obtain ⟨_, _, e2c⟩ := content_all T C hwf ht hfr hra L _ E hE1 xs hxs
+  obtain ⟨_, c2, _, _⟩ := flush_all T C hwf hw ht hb (save T C (accesses T C xs (init (V := V) raw₀))).raw xs hxs
+  have k2 := run_invK T C hwf hw ht hfr hra L hcan _ E hE1 xs hxs
+  have hsh := run_sh T C xs raw₀ (save T C (accesses T C xs (init (V := V) raw₀))).raw
+  cases ho : T.owned l with
+  | false => exact e2c l ho
+  | true =>
+    obtain ⟨v, hvn, hl⟩ := owned_spec T l ho
+    obtain ⟨k2a, k2b⟩ := k2.2 v hvn l hl
+    cases ht2 : (save T C (accesses T C xs (init (V := V) (save T C (accesses T C xs (init raw₀))).raw))).touched v with
+    | false => exact (k2a ht2).1
+    | true =>
+      have ht1 : (save T C (accesses T C xs (init (V := V) raw₀))).touched v = true := by
+        rw [hsh.2 v]; exact ht2
+      rcases k2b ht2 with hc | hr
+      · rw [c2 l] at hc; cases hc
+      · rcases (k1.2 v hvn l hl).2 ht1 with hc | hr1
+        · rw [c1 l] at hc; cases hc
+        · rw [hr, hr1]
+          exact hcan v hvn _ _ _ _ l hl
 
 end C10
